@@ -232,3 +232,5 @@ def check(model, rep, tier):
     loader_clause(model, rep, funcs)
     halves_clause(model, rep, funcs)
     rng_clause(model, rep, funcs)
+    from .generic import axis_convention_obligations
+    axis_convention_obligations(model, rep, ["acryo/_utils.py"], "1 formula", floor=1)
